@@ -263,6 +263,12 @@ class Sym(Interp):
                 any(isinstance(x, tuple) and x and x[0] in ("tuple", "list") for x in (b[2], b[3])):
             # (x if c else (y, 0))[k]: the index goes into both alternatives - a display is taken apart, an opaque value indexed
             return self.mkphi(b[1], T(self.h_subscript(b[2], idx, n, env, ctx)), T(self.h_subscript(b[3], idx, n, env, ctx)))
+        if b[0] == "cmp" and len(b) == 4 and b[1] in ("==", "!=", "<", "<=", ">", ">=") and (is_const(b[3]) or is_const(b[2])) and \
+                isinstance((b[3] if is_const(b[3]) else b[2])[1], (int, float)):
+            # (A != 0)[:, i] is A[:, i] != 0: indexing an elementwise comparison with a scalar = comparing the indexed array
+            if is_const(b[3]):
+                return ("cmp", b[1], T(self.h_subscript(b[2], idx, n, env, ctx)), b[3])
+            return ("cmp", b[1], b[2], T(self.h_subscript(b[3], idx, n, env, ctx)))
         return ("sub", b, T(idx))
 
     def h_unary(self, op, v, n, ctx):
